@@ -176,9 +176,14 @@ func c12Apply(s *treeState, op Op) *Violation {
 		if d := model.DiffFlat(af, again.Flat(), 4); len(d) > 0 {
 			// after a failed first delete the second may legitimately finish the job below p
 			outside := false
-			for _, line := range d {
-				q := strings.Fields(line)[1]
-				if !under[q] {
+			ag := again.Flat()
+			for q, v := range af {
+				if nv, ok := ag[q]; (!ok || nv != v) && !under[q] {
+					outside = true
+				}
+			}
+			for q := range ag {
+				if _, ok := af[q]; !ok && !under[q] {
 					outside = true
 				}
 			}
